@@ -392,7 +392,7 @@ def b_tuple(ex, pos, kws, st):
         r = M.fresh("tup")
         j = z3.Int("j")
         st.assume(M.is_Ref(r), M.rcls(r) == ex.ct.id("tuple"), M.llen(r) == M.llen(z),
-                  z3.ForAll([j], M.lat(r, j) == M.lat(z, j), patterns=[M.lat(r, j)]))
+                  z3.ForAll([j], M.lat(r, j) == M.lat(z, j), patterns=[M.lat(r, j), M.lat(z, j)]))
         return [(st, T(r, "tuple"))]
     raise Unsupported("tuple() of non-sequence")
 
